@@ -338,7 +338,9 @@ func (x *Exec) toTerm(s *State, v Val, t types.Type) *smt.Term {
 		if len(v.Bindings) == 0 {
 			return x.E.FnConst(v.Fn)
 		}
-		return smt.Fresh("closure", smt.Fn)
+		cl := smt.Fresh("closure", smt.Fn)
+		s.assume(smt.Neq(cl, FnNil))
+		return cl
 	case ListVal:
 		var parts []*smt.Term
 		for _, el := range v.Elems {
